@@ -209,6 +209,7 @@ def run(ctx: Ctx, rep: Report, tier: str) -> None:  # noqa: C901
         _traversal(ctx, rep, f)
 
     rendered_numbers(ctx, rep)
+    nested_list_not_defaulted(ctx, rep)
     # R10.7 the range checks of the wrapper are made on every call: no counter or flag outside the objects (module level,
     # closure of the decorator) decides whether they run (C17 R17.2)
     from .c17 import r17_2
@@ -243,6 +244,70 @@ def run(ctx: Ctx, rep: Report, tier: str) -> None:  # noqa: C901
                 rep.violation(st.qualname, f"path [{atoms}] stores {snippet(stored) if stored is not None else 'nothing'}", "a normally returning path of the sequence setter does not store the number it was given: resequencing leaves this entry with another number", where(st), inp="AddrGroup(...ios subnet members...).resequence(10, 10)")
         if ok:
             rep.ok(st.qualname, f"every normal path stores a value derived from `{prm}`", where=where(st))
+
+
+def _drops_only_empty_groups(e: ast.AST, base: str) -> bool:
+    """`[o for o in <base> if not isinstance(o, <Group>) or o.items]`: the same list, in order, without the nested
+    groups that have no members."""
+    if not (isinstance(e, ast.ListComp) and len(e.generators) == 1 and isinstance(e.generators[0].target, ast.Name) and src(e.generators[0].iter) == base and src(e.elt) == e.generators[0].target.id and len(e.generators[0].ifs) == 1):
+        return False
+    v = e.generators[0].target.id
+    t = e.generators[0].ifs[0]
+    if not (isinstance(t, ast.BoolOp) and isinstance(t.op, ast.Or) and len(t.values) == 2):
+        return False
+    notinst = [x for x in t.values if isinstance(x, ast.UnaryOp) and isinstance(x.op, ast.Not) and isinstance(x.operand, ast.Call) and src(x.operand.func) == "isinstance" and len(x.operand.args) == 2 and src(x.operand.args[0]) == v]
+    members = [x for x in t.values if isinstance(x, ast.Attribute) and src(x.value) == v and x.attr.lstrip("_") == "items"]
+    return len(notinst) == 1 and len(members) == 1
+
+
+def nested_list_not_defaulted(ctx: Ctx, rep: Report, rid: str = "R10.8", only: Optional[Set[str]] = None) -> int:
+    """A method that descends into a nested group by calling itself with the nested list in an optional argument
+    (`self.resequence(..., items=item.items)`) must tell "no list given" from "an empty list given": with
+    `kwargs.get("items") or self._items` an EMPTY nested group is answered with the caller's own list, the method calls
+    itself on the same list again, and the descent that object nesting was to bound never ends (RecursionError)."""
+    rep.rule(rid)
+    hits = 0
+    n = 0
+    for f in ctx.prog.funcs:
+        if f.cls is None or (only is not None and f.qualname not in only):
+            continue
+        kwname = f.node.args.kwarg.arg if f.node.args.kwarg else None
+        # keys of optional arguments this method passes to itself: keyword, or a dict spread that it builds
+        passed: Set[str] = set()
+        for c in [x for x in own_nodes(f.node) if isinstance(x, ast.Call) and isinstance(x.func, ast.Attribute) and x.func.attr == f.name and src(x.func.value) in ("self", "super()")]:
+            passed |= {k.arg for k in c.keywords if k.arg}
+            for k in c.keywords:
+                if k.arg is None and isinstance(k.value, ast.Name):
+                    for d in own_nodes(f.node):
+                        if isinstance(d, (ast.Assign, ast.AnnAssign)) and d.value is not None and any(isinstance(t, ast.Name) and t.id == k.value.id for t in (d.targets if isinstance(d, ast.Assign) else [d.target])):
+                            if isinstance(d.value, ast.Call) and src(d.value.func) == "dict":
+                                passed |= {kk.arg for kk in d.value.keywords if kk.arg}
+                            elif isinstance(d.value, ast.Dict):
+                                passed |= {kk.value for kk in d.value.keys if isinstance(kk, ast.Constant)}
+        if not passed:
+            continue
+        for x in own_nodes(f.node):
+            if not (isinstance(x, ast.BoolOp) and isinstance(x.op, ast.Or) and len(x.values) >= 2):
+                continue
+            first = x.values[0]
+            key = None
+            if kwname and isinstance(first, ast.Call) and isinstance(first.func, ast.Attribute) and first.func.attr == "get" and src(first.func.value) == kwname and first.args and isinstance(first.args[0], ast.Constant):
+                key = first.args[0].value
+            elif isinstance(first, ast.Name) and first.id in f.params:
+                key = first.id
+            if key is None or key not in passed:
+                continue
+            own = [v for v in x.values[1:] if any(isinstance(z, ast.Attribute) and src(z.value) == "self" for z in ast.walk(v))]
+            if not own:
+                continue
+            n += 1
+            hits += 1
+            rep.instance()
+            rep.violation(f.qualname, snippet(x, 60), f"the nested list handed down in `{key}` is replaced by the object's own list when it is empty: an empty nested group makes the method call itself on the same list for ever (RecursionError, not a documented error; no number is returned)", where(f, x), inp="acl = Acl(text, group_by='=== '); acl.items[0].items = []; acl.resequence()")
+    rep.instance()
+    if hits == 0:
+        rep.ok("package", "no self-recursive method replaces an empty nested list by its own list", nontrivial=False)
+    return hits
 
 
 def rendered_numbers(ctx: Ctx, rep: Report, rid: str = "R10.6") -> None:
@@ -415,6 +480,8 @@ def _traversal(ctx: Ctx, rep: Report, f: Func) -> None:  # noqa: C901
     # the list may not be re-bound to a filtered / reordered version of itself before the loop
     if isinstance(base, ast.Name):
         for extra in defs.get(bsrc, [])[1:]:
+            if _drops_only_empty_groups(extra, bsrc):
+                continue  # a nested group without lines renders nothing: leaving it out leaves every rendered line in
             if isinstance(extra, (ast.ListComp, ast.GeneratorExp)) and any(g.ifs for g in extra.generators) or any(w in src(extra) for w in ("sorted(", "reversed(", "[::-1]", "filter(")) or isinstance(extra, ast.Subscript):
                 okbase = False
                 bdef = extra
